@@ -20,7 +20,42 @@ def run(ck):
                 ev = [("seqon", 0)] + ev[:3] + [("seqon", 1)] + ev[3:]
             cases.append(ev)
         return cases
-    flowgen.run_flow_check(ck, "Properties_C05.v", "C05", make, "corr_nodeflow_seq", lock_fact=("call:bidib_node_state_get_and_incr_send_seqnum", "call:bidib_node_try_send", "call:bidib_buffer_message", "node_state_table"))
+    flowgen.run_flow_check(ck, "Properties_C05.v", "C05", make, "corr_nodeflow_seq", lock_fact=("call:bidib_node_state_get_and_incr_send_seqnum", "call:bidib_node_try_send", "call:bidib_buffer_message", "call:bidib_buffer_message:bidib_add_to_buffer", "node_state_table"))
+    # lock-granularity schedule probe on the real code: thread A is parked just before its k-th mutex
+    # acquisition inside a submission while thread B submits (or the receiver thread releases deferred
+    # traffic); the per-node sequence numbers on the wire must still be consecutive
+    from vlib import hexs, unhex
+    exe = vlib.build_harness(wrap=("pthread_mutex_lock",))
+    L = ["start 1 - 0"]; probes = []
+    for k in range(1, 8):
+        probes.append(("s%d" % k, ["reset_nodes", "cap 0", "flush", "sched2 %d 1 0 0 7 01 1 0 0 7 02" % k, "flush"]))
+        probes.append(("d%d" % k, ["reset_nodes", "cap 0", "flush", "sched2 %d 1 0 0 7 01 2 0 0 7 02" % k, "sched2 %d 2 0 0 7 03 1 0 0 7 04" % k, "flush"]))
+        # budget exhausted by two 32-byte requests (second deferred); A submits a third message and is parked;
+        # the answer arrives meanwhile and the receiver releases the deferred one
+        ans = hexs(flowgen.frame(flowgen.upmsg([1], 1, 0x93, [1, 65, 1, 66])))
+        probes.append(("r%d" % k, ["reset_nodes", "cap 0", "flush", "send 1 0 0 22 01", "send 1 0 0 23 02", "flush", "schedrx %d 1 0 0 7 03 %s" % (k, ans), "flush"]))
+    for cid, body in probes: L += ["case " + cid] + body
+    rc, out, err = vlib.run_driver(exe, "\n".join(L) + "\n", timeout=300)
+    pc = vlib.split_cases(out); sbad = 0
+    for cid, body in probes:
+        lines = pc.get(cid)
+        chunks = [unhex(l[2:]) for l in (lines or []) if l.startswith("w ")]
+        pk = flowgen.decode_wire(chunks) if lines is not None else None
+        exp = {}; why = None
+        if pk is None: why = "driver crashed or wire undecodable"
+        else:
+            for p in pk:
+                for m in p:
+                    a, sq, ty, data = flowgen.msg_fields(m)
+                    e = exp.get(a, 1)
+                    if sq != e and why is None: why = "node %s: sequence number %d on the wire where %d was due" % (a, sq, e)
+                    exp[a] = 1 if sq == 255 else sq + 1
+        if why:
+            sbad += 1
+            ck.violation("schedule.seq-not-consecutive", {"property": "C05", "schedule": body, "meaning": "schedN k A B: thread A parked before its k-th mutex acquisition while thread B submits; schedrx: while the receiver processes the given uplink bytes",
+                         "wire": [hexs(c) for c in chunks], "reason": why, "stderr": err[-400:]})
+    ck.oblige("schedule probe: %d forced lock-granularity schedules on the real code" % len(probes), sbad == 0, "%d bad" % sbad)
+    ck.coverage["schedules_forced"] = len(probes)
     ck.coverage["rule"] = "seeded single-submitter histories incl. deferral by budget/stall, release by the receiver thread, the 255->1 wrap, table reset, numbering off/on; non-trivial = stall/deferral/release present"
     return vlib.finish_with_broken(ck, trusted=vlib.TRUSTED_COMMON)
 
